@@ -467,7 +467,9 @@ def rule_lp_objective(ctx: Ctx, key: str, rule: str = "lp-objective") -> None:
         missing = [n_ for n_ in need if not mentions(a_ub, lambda y, n_=n_: y == ("param", n_))]
         if short == "reduce_polytope":
             # the context rows are only present on the helper_present branch
-            helper = any("helper_present" in t and cval for (t, cval) in p.decisions)
+            helper = any("helper_present" in t and cval for (t, cval) in p.decisions) or _context_has_entries(p) is True
+            if _context_has_entries(p) is False:
+                helper = False
             if not helper:
                 missing = [m_ for m_ in missing if m_ != "a_help"]
         if missing:
@@ -475,6 +477,30 @@ def rule_lp_objective(ctx: Ctx, key: str, rule: str = "lp-objective") -> None:
         else:
             ctx.ok(rule, key, construct)
     ctx.floor("%s LP call paths" % short, checked, 1)
+
+
+def _context_has_entries(p) -> Optional[bool]:
+    """What a path decided about 'the context matrix has entries' (a test of the size of a_help against 0), however
+    the test is written and wherever it sits (a flag, a property of a shapes record): True / False / None."""
+    verdict = None
+    for e in p.events:
+        if e["kind"] != "branch":
+            continue
+        t, neg = e["test"], False
+        while isinstance(t, tuple) and t and t[0] == "un" and t[1] == "Not":
+            t, neg = t[2], not neg
+        if not (isinstance(t, tuple) and t and t[0] == "cmp" and is_const(t[3]) and t[3][1] == 0):
+            continue
+        if not mentions(t[2], lambda y: y == ("attr", ("param", "a_help"), "shape")):
+            continue
+        if mentions(t[2], lambda y: y == ("attr", ("param", "a"), "shape")):
+            continue
+        positive = {"Gt": True, "NotEq": True, "Eq": False, "LtE": False}.get(t[1])
+        if positive is None:
+            continue
+        holds = bool(e["taken"]) != neg
+        verdict = positive if holds else (not positive)
+    return verdict
 
 
 def _row_count_of(v, mat: str, vec: str) -> bool:
@@ -733,6 +759,53 @@ def _no_terms_test(v) -> Optional[Tuple[str, bool]]:
     return None
 
 
+def rule_contract_simplify(ctx: Ctx, rule: str = "contract-simplify") -> None:
+    """C07: the documented in-place method IoContract.simplify() replaces the guarantees by their simplification in
+    the context of the assumptions - on every path (a contract without assumptions still has guarantees that can be
+    redundant among themselves: an empty context is a context)."""
+    prog = ctx.prog
+    fi = prog.func("IoContract.simplify")
+    me = fi.params[0]
+    construct = "IoContract.simplify(): self.g = self.g.simplify(self.a) on every path"
+    n = 0
+    for p in Sim(prog, fi).paths():
+        if p.terminal != "return":
+            continue
+        n += 1
+        stores = [e for e in p.events if e["kind"] == "store" and e["target"] == ("attr", ("param", me), "g")]
+        okc = False
+        for e in stores:
+            v = e["value"]
+            if isinstance(v, tuple) and v and v[0] == "mcall" and v[1] == "simplify" and v[2] == ("attr", ("param", me), "g") and list(v[3]) + [x for _k, x in v[4]] == [("attr", ("param", me), "a")]:
+                okc = True
+        if okc:
+            ctx.ok(rule, fi.key, construct + " @ " + (p.label()[:40] or "straight line"))
+        else:
+            ctx.violation(rule, fi.key, construct, "a path returns without simplifying the guarantees against the assumptions (path %s; stores: %s)" % (p.label()[:80] or "straight line", [show(e["value"], 3) for e in stores]), where=fi.where)
+    ctx.floor("IoContract.simplify returning paths", n, 1)
+
+
+def _lacks_constraints_by_run(prog: Program, lc):
+    """lacks_constraints() run by the kernel interpreter: True for the empty list only - a list of terms without
+    variables (0 <= -1, what is left when like terms cancel) HAS constraints.  True / a description / None."""
+    from .termalg import DictV, Key, ListV, Raised, Rec, TermAlg, num
+    from .termalg import Undecidable as _Und
+
+    def term(d, c):
+        return Rec("PolyhedralTerm", {"variables": DictV({Key(k): num(v) for k, v in d.items()}), "constant": num(c)})
+
+    cases = [([], True, "the empty list"), ([term({}, -1)], False, "the list [0 <= -1] (no variable, unsatisfiable)"), ([term({"x": 1}, 1)], False, "the list [x <= 1]"), ([term({}, 1), term({"x": 1}, 1)], False, "the list [0 <= 1, x <= 1]")]
+    try:
+        for terms, want, label in cases:
+            ta = TermAlg(prog)
+            got = ta.truth(ta.call(lc, [], {}, self_val=Rec("PolyhedralTermList", {"terms": ListV(terms)})))
+            if got is not want:
+                return "%s is said %s constraints" % (label, "to lack" if got else "to have")
+    except (AnalysisError, _Und, Raised, KeyError, AttributeError):
+        return None
+    return True
+
+
 def rule_refines_order(ctx: Ctx, rule: str = "refines-order") -> None:
     """C03: PolyhedralTermList.refines - an unconstrained right side is refined by anything (decided first), an
     unconstrained left side refines nothing else; otherwise containment of (self) in (other), in that order."""
@@ -744,8 +817,11 @@ def rule_refines_order(ctx: Ctx, rule: str = "refines-order") -> None:
     rets = [n for n in ast.walk(lc.node) if isinstance(n, ast.Return)]
     construct = "lacks_constraints() is 'the list has no terms'"
     t = norm(rets[0].value).replace(" ", "") if len(rets) == 1 else ""
-    if t in ("len(self.terms)==0", "notself.terms", "self.terms==[]", "len(self.terms)<1", "0==len(self.terms)"):
+    verdict = _lacks_constraints_by_run(prog, lc)
+    if verdict is True or (verdict is None and t in ("len(self.terms)==0", "notself.terms", "self.terms==[]", "len(self.terms)<1", "0==len(self.terms)")):
         ctx.ok(rule, lc.key, construct)
+    elif isinstance(verdict, str):
+        ctx.violation(rule, lc.key, construct, verdict, where=lc.where)
     else:
         ctx.cannot_decide(rule, lc.key, construct, "unrecognised body: %s" % t)
     want = {(True, True): "return True", (False, True): "return True", (True, False): "return False"}
@@ -1634,6 +1710,8 @@ def rule_polarity(ctx: Ctx, key: str, flag: str, neg_when: bool, result_kind: st
                     ctx.violation(rule, key, construct, "the LP optimum is computed but never enters the returned term (%s): the eliminated variables are dropped without accounting for their extreme value" % show(first, 3), where=fi.where)
             elif s2 is None and result_kind == "return" and mentions(p.value, _is_fun) and mentions(p.value, lambda y: isinstance(y, tuple) and len(y) == 4 and y[0] == "bin" and y[1] in ("Div", "FloorDiv", "Pow", "Mod")):
                 ctx.violation(rule, key, construct, "the result %s is not the optimum with a sign (it divides by / raises it)" % show(p.value, 4), where=fi.where)
+            elif s2 is None and mentions(p.value if result_kind == "return" else None, lambda y: isinstance(y, tuple) and y and y[0] == "call" and str(y[1]).split(".")[-1] in ("round", "around", "rint", "trunc", "floor", "ceil", "format") and mentions(y, _is_fun)):
+                ctx.violation(rule, key, construct, "the optimum is rounded before it is returned (%s): an absolute number of decimals is a relative error without bound for optima of small magnitude" % show(p.value, 4), where=fi.where)
             elif s2 is None:
                 ctx.cannot_decide(rule, key, construct, "could not find how res['fun'] enters the result")
             elif s2 == s1:
